@@ -21,6 +21,19 @@ type LoopSpec struct {
 	Decreases *Expr
 }
 
+// AppendSpec: "appends p n" - the first result is what append(p, x1..xn) returns for some
+// n elements: p extended in place when it fits the capacity (only the n new cells change),
+// otherwise a fresh array holding a copy of p's elements followed by n new ones (and the
+// spare capacity of the old array may have been overwritten). Callers get this as an exact,
+// quantifier-free heap transformer; the function itself is checked against it.
+type AppendSpec struct {
+	Param string
+	N     *Expr
+	When  *Expr // optional: the append happened only if this holds in the post-state (e.g. result1 == nil)
+	Src   string
+	Line  int
+}
+
 // CallSiteSpec is an assertion attached to calls of Callee inside the function
 // under contract: evaluated with the callee's parameter names bound to the
 // actual arguments (plus the enclosing function's parameters). Ord 0 = every call.
@@ -66,6 +79,8 @@ type FuncContract struct {
 	LoopOrder   []string
 	Inline      bool
 	CoreTypes   bool // treat type parameters constrained to ~T0 as T0
+	Appends     *AppendSpec
+	SplitReturns bool // exit obligations per return site
 	IsIface     bool // contract on an interface method (no body to verify)
 	Logged      bool   // maintain call-log ghost variables calls_<Name>, arg_<Name>_<param>
 	LogName     string
@@ -116,7 +131,7 @@ type ContractFile struct {
 var clauseKeywords = map[string]bool{
 	"func": true, "lemma": true, "extern": true, "opaque": true, "pure": true, "props": true, "arith": true,
 	"requires": true, "ensures": true, "modifies": true, "loop": true, "inline": true, "trusted": true,
-	"nosafe": true, "effectfree": true, "uses": true, "ghost": true, "assigns": true, "logged": true, "callsite": true, "where": true, "global": true, "recvfrom": true, "sets": true, "coretypes": true,
+	"nosafe": true, "effectfree": true, "uses": true, "ghost": true, "assigns": true, "logged": true, "callsite": true, "where": true, "global": true, "recvfrom": true, "sets": true, "coretypes": true, "appends": true, "splitreturns": true,
 }
 
 var labelRe = regexp.MustCompile(`^([A-Za-z_][A-Za-z0-9_]*)\s*:\s*([^:=].*)$`)
@@ -392,6 +407,29 @@ func ParseContractFile(path, pkgPath string) (*ContractFile, error) {
 				cur.LogName = strings.TrimSpace(strings.TrimPrefix(rest, "as"))
 			case "coretypes":
 				cur.CoreTypes = true
+			case "splitreturns":
+				cur.SplitReturns = true
+			case "appends":
+				pn, body, ok := strings.Cut(rest, " ")
+				if !ok {
+					addErr(rc.line, "appends <slice parameter> <count>")
+					continue
+				}
+				body, when, hasWhen := strings.Cut(body, " when ")
+				e, err := ParseSpec(strings.TrimSpace(body))
+				if err != nil {
+					addErr(rc.line, "%v", err)
+					continue
+				}
+				cur.Appends = &AppendSpec{Param: strings.TrimSpace(pn), N: e, Src: rest, Line: rc.line}
+				if hasWhen {
+					w, err := ParseSpec(strings.TrimSpace(when))
+					if err != nil {
+						addErr(rc.line, "%v", err)
+						continue
+					}
+					cur.Appends.When = w
+				}
 			case "inline":
 				cur.Inline = true
 			case "trusted":
